@@ -31,6 +31,9 @@ EXTENDS Naturals, Sequences, FiniteSets, TLC
 
 CONSTANTS Descs,              \* the family of descriptions Init picks from
           SmallStep,          \* BOOLEAN, see above
+          Lean,               \* BOOLEAN: forget the description once loaded (the instance dumped for replay:
+                              \* states stay small; the declarative properties are checked in the other instances,
+                              \* BigStepAgrees ties the two together)
           AutoIdSkipsUsed, ImplicitMapsLinked
 
 VARIABLES desc,   \* the description (never changes)
@@ -97,6 +100,7 @@ AutoMark == <<"auto", 0>>       \* entity without "id"; explicit ids are <<"s", 
 NoEnt    == <<"-", 0>>
 NoWho    == <<"-", 0, 0>>
 NoDicts  == [procs |-> <<>>, ents |-> <<>>]
+NoDesc   == [procs |-> <<>>, ents |-> <<>>]
 IsFile(md) == md \in {"file1", "file2", "file"}
 
 -----------------------------------------------------------------------------
@@ -283,7 +287,7 @@ Land(st, p, md) ==   \* common tail: publish a stage result
     /\ dicts' = st.dicts /\ w' = st.w /\ err' = st.err
     /\ pc' = IF st.err # "none" THEN "failed" ELSE p
     /\ mode' = IF p = "loaded" \/ st.err # "none" THEN Collapse(md) ELSE md
-    /\ UNCHANGED desc
+    /\ desc' = IF Lean /\ (p = "loaded" \/ st.err # "none") THEN NoDesc ELSE desc
 
 Load(md) == /\ ~SmallStep /\ pc = "desc"
             /\ Land(Run(St0, 1, desc, md), "loaded", md)
@@ -320,7 +324,7 @@ ExpProcs(d, md) ==
 
 ExpComps(d, e) == [j \in 1 .. Len(d.ents[e].comps) |-> ExpInst(<<"c", e, j>>, d.ents[e].comps[j])]
 NonEmpty(d) == {e \in DOMAIN d.ents : d.ents[e].comps # <<>>}   \* an entity is its components: none listed, no entity
-ExplicitIds(d) == {d.ents[e].id : e \in DOMAIN d.ents} \ {AutoMark}
+ExplicitIds(d) == {d.ents[e].id : e \in NonEmpty(d)} \ {AutoMark}      \* ids in use: an explicit id without components owns nothing
 RowIds(x) == {x.rows[i].id : i \in DOMAIN x.rows}
 RowOf(x, id) == x.rows[CHOOSE i \in DOMAIN x.rows : x.rows[i].id = id]
 
@@ -366,6 +370,11 @@ OnEnable == (pc = "enabled") =>
     /\ w.enabled /\ w.queue = <<>>
     /\ \A h \in Handlers(desc) : CallsOf(w.log, h.who) = ExpCalls(h.who, h.type, mode)
     /\ \A i \in DOMAIN w.log : \E h \in Handlers(desc) : h.who = w.log[i].who
+
+\* the one-step Load of the dumped instance is the composition of the stages checked here
+BigStepAgrees == (SmallStep /\ pc \in {"loaded", "failed"}) =>
+                     \E md \in Modes : /\ Collapse(md) = mode
+                                       /\ [dicts |-> dicts, w |-> w, err |-> err] = Run(St0, 1, desc, md)
 
 NoFailure == pc # "failed"      \* well-formed descriptions load
 
